@@ -975,6 +975,13 @@ func (ctx Ctx) binExpr(e *ast.BinaryExpr) coq.Expr {
 		}
 		ok = true
 	}
+	if b, isBasic := ctx.typeOf(e.X).Underlying().(*types.Basic); ok && isBasic && b.Info()&types.IsString != 0 {
+		switch e.Op {
+		case token.LSS, token.GTR, token.LEQ, token.GEQ:
+			// GooseLang compares integers only
+			ctx.unsupported(e, "ordering comparison on strings")
+		}
+	}
 	if ok {
 		expr := coq.BinaryExpr{
 			X:  ctx.expr(e.X),
